@@ -2,6 +2,8 @@ import Gv.Proofs.BagRef10
 import Gv.Proofs.BagRefExt
 import Gv.Proofs.BagRefExt2
 import Gv.Proofs.BagRefExt3
+import Gv.Proofs.BagRefExt4
+import Gv.Proofs.BagSitesAgree
 /-!
 Names stay pairwise distinct (C01): every operation other than the caller's own name edits
 (`Rename`, `RenameRegexp`, `AppendSeqIdentifier`, `CleanNames`, `TrimNames`, `TrimNamesAuto`) keeps the names of a
@@ -296,5 +298,29 @@ theorem ni_stepOp {b : Bag} (h : NI b) (hr : Rect b) (op : Op) (hne : ¬ NameEdi
       · rename_i r hrr
         have s := sameShape_maskOccBag hrr
         exact h.keys s.keys s.index s.next
+  | rmCharSites cs num den ends ic ig iN rev =>
+    simp only [Model.stepOp]
+    split
+    · exact h
+    · split
+      · exact h
+      · rename_i r hrr
+        obtain ⟨k, i, n, _⟩ := cleanSitesBag_fields (isCleanFn_char _ cs ends ic ig iN rev) hrr
+        exact h.keys k i n
+  | rmMajSites num den ends ig iN =>
+    simp only [Model.stepOp]
+    split
+    · exact h
+    · split
+      · exact h
+      · rename_i r hrr
+        obtain ⟨k, i, n, _⟩ := cleanSitesBag_fields (isCleanFn_maj _ ends ig iN) hrr
+        exact h.keys k i n
+  | replaceRe ok seqs =>
+    simp only [Model.stepOp]
+    split
+    · exact h
+    · obtain ⟨k, i, n, _⟩ := replaceRegexBag_fields seqs b
+      exact h.keys k i n
 
 end Gv.Proofs.BagAbs
